@@ -2,6 +2,8 @@
 //! History exploration over the tree of wakers obtained inside polls of a future / stream / sink that
 //! is polled through an opaque cglue object.
 
+mod foreign;
+
 use cglue::*;
 use explore::driver::{CheckDef, Section};
 use explore::{digest, hist, CaseOut, Cx, HistSut, StepOut, Tier};
@@ -157,6 +159,9 @@ enum Kind {
     /// an opaque future polled inside another opaque future: the innermost implementor sees a waker that has
     /// crossed two boundaries (the library's own per-poll borrowed waker is the "caller's waker" of the inner one)
     NestedFuture,
+    /// the poll is entered from another module: the per-poll record is assembled through its published layout with
+    /// that module's own clone / wake functions (see foreign.rs); the local waker only lends its bits as a decoy
+    ForeignFuture,
 }
 
 #[derive(Default)]
@@ -273,7 +278,28 @@ struct Sut {
 
 type V = Result<(), (String, String)>;
 
-fn oracle(slot: &Slot, world: &World, at: &dyn Fn(&str) -> String) -> V {
+fn oracle(slot: &Slot, world: &World, at: &dyn Fn(&str) -> String, foreign: bool, fstats: Option<&foreign::Stats>) -> V {
+    if foreign {
+        // the other module's functions did all the work; nothing on this side may have interpreted the opaque words
+        let st = fstats.expect("foreign stats");
+        let (fwakes, frefs, under) = (st.wakes.load(SeqCst), st.refs.load(SeqCst), st.under.load(SeqCst));
+        if slot.refs.load(SeqCst) != 1 || slot.wakes.load(SeqCst) != 0 {
+            return Err(("waker:foreign_words_interpreted".into(), at(&format!("the record came from another module, but the two opaque words it points to were used as a local waker (refcount {} instead of 1, woken {} time(s)): cloning / waking must go through the record's own functions", slot.refs.load(SeqCst), slot.wakes.load(SeqCst)))));
+        }
+        if under || frefs < 0 {
+            return Err(("waker:over_release".into(), at("the other module's waker was released more often than it was cloned")));
+        }
+        if fwakes != world.wake_ops {
+            return Err(("waker:wake_count".into(), at(&format!("{} wake operation(s) performed, the other module's waker woken {} time(s)", world.wake_ops, fwakes))));
+        }
+        let mut fams: Vec<usize> = world.wakers.iter().map(|x| x.1).collect();
+        fams.sort();
+        fams.dedup();
+        if world.pending.is_empty() && frefs != fams.len() as i64 {
+            return Err(("waker:leak".into(), at(&format!("{} famil(ies) of retained wakers are alive, the other module counts {} owned waker(s) handed out and not released", fams.len(), frefs))));
+        }
+        return Ok(());
+    }
     let refs = slot.refs.load(SeqCst);
     let wakes = slot.wakes.load(SeqCst);
     // the caller's own handle counts 1 while it is alive
@@ -327,7 +353,7 @@ impl Sut {
         for a in &common {
             v.push(Op::Out(*a));
         }
-        if !caller_dropped && n > 0 {
+        if !caller_dropped && n > 0 && self.kind != Kind::ForeignFuture {
             v.push(Op::Out(Act::DropCaller));
         }
         if self.threads {
@@ -342,6 +368,9 @@ impl Sut {
         let _serial = if self.null_data { Some(NULL_LOCK.lock().unwrap_or_else(|e| e.into_inner())) } else { None };
         let (waker, slot) = manual_waker(self.null_data);
         let mut waker = Some(waker);
+        let foreign = self.kind == Kind::ForeignFuture;
+        // registered under the decoy's data word (the slot address); stays registered: wakers leaked on a violation may still call in
+        let fstats: Option<&'static foreign::Stats> = if foreign { Some(foreign::register(slot as *const Slot as usize)) } else { None };
         let world = Arc::new(Mutex::new(World::default()));
         // group the history into polls / outside actions
         enum Grp {
@@ -410,7 +439,7 @@ impl Sut {
                             }
                         }
                     }
-                    oracle(slot, &world.lock().unwrap(), &at)?;
+                    oracle(slot, &world.lock().unwrap(), &at, foreign, fstats)?;
                     obs.push(digest(&(slot.refs.load(SeqCst), slot.wakes.load(SeqCst), world.lock().unwrap().wakers.len())));
                 }
                 drop(obj);
@@ -418,6 +447,10 @@ impl Sut {
         }
         match self.kind {
             Kind::Future => drive!(trait_obj!(Scripted(world.clone()) as Future), |p: Pin<&mut _>, cx: &mut Context| Future::poll(p, cx).is_pending()),
+            Kind::ForeignFuture => drive!(trait_obj!(Scripted(world.clone()) as Future), |p: Pin<&mut _>, cx: &mut Context| {
+                let _ = unsafe { foreign::poll_object(Pin::into_inner(p), cx.waker()) };
+                true
+            }),
             Kind::NestedFuture => drive!(trait_obj!(Outer(trait_obj!(Scripted(world.clone()) as Future)) as Future), |p: Pin<&mut _>, cx: &mut Context| Future::poll(p, cx).is_pending()),
             Kind::Stream => drive!(trait_obj!(Scripted(world.clone()) as Stream), |p: Pin<&mut _>, cx: &mut Context| futures::Stream::poll_next(p, cx).is_pending()),
             Kind::SinkReady => drive!(trait_obj!(Scripted(world.clone()) as Sink), |p: Pin<&mut _>, cx: &mut Context| futures::Sink::<u32>::poll_ready(p, cx).is_pending()),
@@ -450,7 +483,7 @@ impl Sut {
             }
         }
         let at = |what: &str| format!("teardown: {}", what);
-        oracle(slot, &world.lock().unwrap(), &at)?;
+        oracle(slot, &world.lock().unwrap(), &at, foreign, fstats)?;
         let caller_dropped = waker.is_none();
         drop(waker);
         if slot.refs.load(SeqCst) != 0 {
@@ -458,6 +491,9 @@ impl Sut {
         }
         if slot.touched_after_release.load(SeqCst) {
             return Err(("waker:use_after_release".into(), "the caller's waker was touched after its last reference was released".into()));
+        }
+        if foreign {
+            foreign::unregister(slot as *const Slot as usize);
         }
         Ok((key, n, last_in, caller_dropped))
     }
@@ -484,6 +520,7 @@ fn kind_of(name: &str) -> Kind {
         "sink_ready" => Kind::SinkReady,
         "sink_flush" => Kind::SinkFlush,
         "nested_future" => Kind::NestedFuture,
+        "foreign_future" => Kind::ForeignFuture,
         _ => Kind::SinkClose,
     }
 }
@@ -491,7 +528,7 @@ fn kind_of(name: &str) -> Kind {
 fn main() {
     std::panic::set_hook(Box::new(|_| {}));
     let mut sections = Vec::new();
-    for name in ["future", "stream", "sink_ready", "sink_flush", "sink_close", "future_nulldata", "sink_flush_nulldata", "nested_future"] {
+    for name in ["future", "stream", "sink_ready", "sink_flush", "sink_close", "future_nulldata", "sink_flush_nulldata", "nested_future", "foreign_future"] {
         let kind = kind_of(name);
         let null_data = name.ends_with("_nulldata");
         sections.push(Section {
